@@ -2,34 +2,130 @@
   Line-protocol driver: one operation per input line, exactly one output line per operation:
       M:<answer of the MODEL>[\tS:<answer of the SPEC>]
   The harness (Rust, real engine in-process) produces the same operations and the implementation's
-  answers; ./check diffs them (impl vs M = tie, impl vs S = the property itself).
+  answers; ./check diffs them (impl vs M = tie, impl vs S = the property itself).  `S:?` = no spec
+  for this operation.
 -/
 import Driver.Text
 import Flounder.Spec.Map
+import Flounder.Spec.Position
+import Flounder.Model.Eval
+import Flounder.Model.Go
 
 open Flounder Driver
 
 structure St where
   tt : TT := {}
   ttLog : List Entry := []
+  evaluator : Evaluator := {}
+  zkeys : Array UInt64 := Array.replicate 837 0
+  zgood : Bool := false
 
 def both (m s : String) : String := s!"M:{m}\tS:{s}"
 def modelOnly (m : String) : String := s!"M:{m}"
 
+/-- the key table as functions over the flat array sent by the harness
+    (layout: [color][piece][square] (768), white-to-move, [color][side] (4), ep[square] (64)). -/
+def zkeysOf (a : Array UInt64) : ZKeys :=
+  { piece := fun c p s => a.getD (c.index * 384 + p.index * 64 + s) 0
+    whiteToMove := a.getD 768 0
+    castle := fun c side => a.getD (769 + c.index * 2 + side) 0
+    ep := fun s => a.getD (773 + s) 0 }
+
+/-- `KeysGood`: all 837 keys non-zero and pairwise distinct. -/
+def keysGood (a : Array UInt64) : Bool :=
+  let l := a.toList
+  let srt := l.mergeSort (fun x y => decide (x ≤ y))
+  l.all (· != 0) && (srt.zip (srt.drop 1)).all (fun (x, y) => x != y)
+
+/-- spec of a well-formed clock command: the mover's own pair values, looked up directly. -/
+def ownClock (side : Color) (toks : List String) : Nat × Nat :=
+  let tkey := if side = .white then "wtime" else "btime"
+  let ikey := if side = .white then "winc" else "binc"
+  let rec find (k : String) (l : List String) (acc : Nat) : Nat :=
+    match l with
+    | a :: b :: rest => find k rest (if a = k then (Flounder.parseU64 b.toList).getD 0 else acc)
+    | _ => acc
+  (find tkey toks 0, find ikey toks 0)
+
+def fitsText (budget own : Nat) : String :=
+  if budget ≤ own ∧ (own = 0 ∨ budget < own) then "fits" else "exceeds"
+
+def zobPair (st : St) (a b : String) : St × String :=
+  match parseBoard a, parseBoard b with
+  | some a, some b =>
+    let k := zkeysOf st.zkeys
+    let m := if hash k a = hash k b then "same" else "differ"
+    -- the property: equal exactly when the same position (the harness sends pairs that are either the
+    -- same position or differ in ONE component, where `KeysGood` makes "differ" certain)
+    (st, both m (if Spec.samePosition a b then "same" else "differ"))
+  | _, _ => (st, modelOnly "bad-op")
+
 def step (st : St) (line : String) : St × String :=
   let toks := (line.trimAscii.toString.splitOn " ").filter (· ≠ "")
   match toks with
+  | "case" :: _ => (st, both "ok" "ok")
   | ["tt.new"] => ({ st with tt := {}, ttLog := [] }, both "ok" "ok")
   | ["tt.store", k, ev, mv, d, b] =>
-    match parseU64 k, ev.toInt?, parseOptMv mv, d.toNat?, parseBounds b with
+    match Driver.parseU64 k, ev.toInt?, parseOptMv mv, d.toNat?, parseBounds b with
     | some k, some ev, some mv, some d, some b =>
       ({ st with tt := st.tt.store k ev mv d b,
                  ttLog := Spec.mkEntry k ev mv d b :: st.ttLog }, both "ok" "ok")
     | _, _, _, _, _ => (st, modelOnly "bad-op")
   | ["tt.get", k] =>
-    match parseU64 k with
+    match Driver.parseU64 k with
     | some k => (st, both (entryText (st.tt.retrieve k)) (entryText (Spec.logGet st.ttLog k)))
     | none => (st, modelOnly "bad-op")
+  -- ---------------------------------------------------------------- C14
+  | ["eval", b] =>
+    match parseBoard b with
+    | some b =>
+      let (v, e) := evaluate st.evaluator b
+      ({ st with evaluator := e }, both (toString v) "?")
+    | none => (st, modelOnly "bad-op")
+  | ["eval.rel", b] =>
+    match parseBoard b with
+    | some b =>
+      let (v, e1) := evaluate st.evaluator b
+      let (f, e2) := evaluate e1 (Spec.flipSide b)
+      let (m, e3) := evaluate e2 (Spec.mirror b)
+      ({ st with evaluator := e3 }, both s!"{v} {f} {m}" s!"{evalFn b} {-(evalFn b)} {evalFn b}")
+    | none => (st, modelOnly "bad-op")
+  -- ---------------------------------------------------------------- C11
+  | "zob.keys" :: ks =>
+    match ks.mapM Driver.parseU64 with
+    | some l =>
+      if l.length = 837 then
+        let a := l.toArray
+        let good := keysGood a
+        ({ st with zkeys := a, zgood := good }, both "ok" (if good then "ok" else "keys-not-good"))
+      else (st, modelOnly "bad-op")
+    | none => (st, modelOnly "bad-op")
+  | ["zob.hash", b] =>
+    match parseBoard b with
+    | some b =>
+      let k := zkeysOf st.zkeys
+      (st, both (toString (hash k b).toNat) (toString (Spec.hashSpec k b).toNat))
+    | none => (st, modelOnly "bad-op")
+  | ["zob.same", a, b] => zobPair st a b
+  | ["zob.diff", a, b] => zobPair st a b
+  -- ---------------------------------------------------------------- C12
+  | "go.params" :: side :: rest =>
+    let c := if side = "w" then Color.white else Color.black
+    let g := goParams c (rest.map String.toList)
+    let t := match g.timeLimit with | some ms => toString ms | none => "none"
+    (st, both s!"{g.depth} {t}" "?")
+  | "go.pair" :: side :: rest =>
+    let c := if side = "w" then Color.white else Color.black
+    let a := rest.takeWhile (· ≠ "|")
+    let b := (rest.dropWhile (· ≠ "|")).drop 1
+    let ga := goParams c (a.map String.toList)
+    let gb := goParams c (b.map String.toList)
+    let fit (g : GoParams) (toks : List String) : String :=
+      match g.timeLimit with
+      | some ms => fitsText ms (ownClock c (toks.drop 1)).1
+      | none => "fits"
+    let same := if ga.timeLimit = gb.timeLimit then "same" else "differ"
+    (st, both s!"{same} {fit ga a} {fit gb b}" "same fits fits")
   | _ => (st, modelOnly "bad-op")
 
 partial def loop (h : IO.FS.Stream) (out : IO.FS.Stream) (st : St) : IO Unit := do
